@@ -15,7 +15,9 @@ append; unlock) and `activation` — `activation` = `cas` (spawns the goroutine:
 the `terminated` flag — `detachStreamOf`/`closeStream` = the failure branch of `send b` (table entry
 removed only if it is this stream; terminate, Farewell, Close once) — `onDeliveryMessage` =
 `unpack`, `deliverRoute` (lookup, redirect only on nil), wrap, deliver by the system flag —
-`onBatchDeliveryMessage` = in order — `streaming` = attach, loop Recv → deliver, detach itself at the end.
+`onBatchDeliveryMessage` = in order — `streaming` = attach, loop Recv → deliver, detach itself at the end — `attachStream` = table entry + live
+set — `Close` = detach every table entry, close the displaced (orphan) streams, GracefulStop —
+`clientStream.Send` / `serverStream.Send` / `serverStream.Close` = one sender at a time per gRPC stream.
 -/
 namespace MV.Model.StreamGateFacts
 
@@ -47,7 +49,7 @@ def detachStreamOfSk : String :=
   "current, exist := s.streams.Load(address) ; if exist && current == stream { ; s.streams.Delete(address) ; } ; s.closeStream(stream)"
 
 def closeStreamSk : String :=
-  "if stream.IsTerminated() { ; return ; } ; stream.Terminate(nil) ; _ = stream.Send(&SharedMessage{ MessageType: &SharedMessage_Farewell{&Farewell{Address: s.rc.GetPhysicalAddress()}}, }) ; stream.Close()"
+  "s.liveLock.Lock() ; s.liveLock.Unlock() ; if stream.IsTerminated() { ; return ; } ; stream.Terminate(nil) ; _ = stream.Send(&SharedMessage{ MessageType: &SharedMessage_Farewell{&Farewell{Address: s.rc.GetPhysicalAddress()}}, }) ; stream.Close()"
 
 def onDeliveryMessageSk : String :=
   "message, err := s.config.codec.Decode(m.MessageType, m.MessageData) ; if err != nil { ; panic(err) ; } ; typeswitch { ; case *SharedErrorMessage: ; message = errors.New(v.Message) ; } ; receiverProcess := s.rc.GetProcess(receiver) ; if receiverProcess == nil && s.config.unknownReceiverRedirect != nil { ; receiver = s.config.unknownReceiverRedirect(message) ; if receiver != nil { ; receiverProcess = s.rc.GetProcess(receiver) ; } ; } ; message = WrapMessage(sender, receiver, message) ; if m.System { ; receiverProcess.DeliverySystemMessage(receiver, sender, nil, message) ; } else { ; receiverProcess.DeliveryUserMessage(receiver, sender, nil, message) ; }"
@@ -57,6 +59,21 @@ def onBatchDeliveryMessageSk : String :=
 
 def streamingSk : String :=
   "s.attachStream(address, stream) ; range s.config.shareOpenedHooks { ; } ; defer { ; s.detachStreamOf(address, stream) ; range s.config.shareClosedHooks { ; } ; } ; for { ; message, err = stream.Recv() ; if err != nil { ; if errors.Is(err, io.EOF) { ; return ; } ; _, exist := s.streams.Load(address) ; if !exist { ; return ; } ; return ; } ; typeswitch { ; case *SharedMessage_DeliveryMessage: ; s.onDeliveryMessage(stream, address, m.DeliveryMessage) ; case *SharedMessage_BatchDeliveryMessage: ; s.onBatchDeliveryMessage(stream, address, m.BatchDeliveryMessage) ; case *SharedMessage_Farewell: ; return ; } ; }"
+
+def attachStreamSk : String :=
+  "s.streams.Store(address, stream) ; s.liveLock.Lock() ; if s.live == nil { ; } ; s.liveLock.Unlock()"
+
+def closeSk : String :=
+  "if s.state.Load() == sharedStateShared { ; if len(err) > 0 { ; range err { ; if e != nil { ; return ; } ; } ; } ; } ; if !s.state.CompareAndSwap(sharedStateShared, sharedStateClosing) { ; return ; } ; s.streams.Range(func(key PhysicalAddress, value sharedStream) bool { s.detachStream(key) return true }) ; s.liveLock.Lock() ; orphans := make([]sharedStream, 0, len(s.live)) ; range s.live { ; orphans = append(orphans, stream) ; } ; s.liveLock.Unlock() ; range orphans { ; s.closeStream(stream) ; } ; s.grpc.GracefulStop() ; s.state.Store(sharedStateClosed)"
+
+def clientStream_SendSk : String :=
+  "c.sendLock.Lock() ; defer c.sendLock.Unlock() ; c.stream.Send(message) ; return"
+
+def serverStream_SendSk : String :=
+  "s.sendLock.Lock() ; defer s.sendLock.Unlock() ; s.stream.Send(message) ; return"
+
+def serverStream_CloseSk : String :=
+  "s.sendLock.Lock() ; _ = s.stream.CloseSend() ; s.sendLock.Unlock() ; _ = s.cc.Close()"
 
 def table : List (String × String) := [
   ("packMessage", packMessageSk),
@@ -71,7 +88,12 @@ def table : List (String × String) := [
   ("closeStream", closeStreamSk),
   ("onDeliveryMessage", onDeliveryMessageSk),
   ("onBatchDeliveryMessage", onBatchDeliveryMessageSk),
-  ("streaming", streamingSk)
+  ("streaming", streamingSk),
+  ("attachStream", attachStreamSk),
+  ("Close", closeSk),
+  ("clientStream.Send", clientStream_SendSk),
+  ("serverStream.Send", serverStream_SendSk),
+  ("serverStream.Close", serverStream_CloseSk)
 ]
 
 end MV.Model.StreamGateFacts
